@@ -302,6 +302,10 @@ def orbit_cardinality(orbit: list, modes: int) -> Union[int, float]:
     Returns:
         int: number of samples in the orbit
     """
+    if len(orbit) > modes:
+        # an orbit with more non-zero entries than modes contains no samples
+        return 0
+
     sample = orbit + [0] * (modes - len(orbit))
     counts = list(Counter(sample).values())
 
